@@ -53,6 +53,7 @@ def totality(ctx, rep, rule, entries, reviewed, exempt_fns=(), trusted_fns=(), s
     R = set(f for f in R if not any(path_matches(f, s) or f.startswith(s) or s in f for s in skip_fns))
     pa = PanicAnalysis(prog, exempt_fns=exempt_fns, trusted_fns=trusted_fns)
     used = set()
+    pending = []
     nsites = 0
     for fid in sorted(R):
         s = pa.summary(fid)
@@ -75,8 +76,30 @@ def totality(ctx, rep, rule, entries, reviewed, exempt_fns=(), trusted_fns=(), s
                 rep.exempt(rep.pid + " | " + rule + " | " + key, why)
                 rep.ob(rule, key, True, "%s `%s` reviewed: %s" % (site.kind, site.desc, why), at)
                 continue
-            kind = "API precondition of an entry point / indirectly called function" if site.status == "exported" else "not implied by any dominating guard"
-            rep.ob(rule, key, False, "possible panic: %s `%s` in %s: %s" % (site.kind, site.desc, fid, kind), at)
+            pending.append((fid, site, key, at))
+    # Sites whose exact key is not in the table.  Keys end in an ordinal among the sites of the same (function, kind,
+    # operator); an edit that adds or removes one such site renumbers the ones after it.  A pending site is therefore also
+    # accepted when the table holds an *unused* line of the same descriptor in the same function (in ordinal order): the
+    # function still has no more undischarged sites of that kind than were reviewed.  Exact matches are consumed first, so a
+    # site whose guard is broken (and that was never a table line) is still reported unless a reviewed site of the same
+    # kind disappeared from the same function in the same edit.
+    def descriptor(k):
+        return k.rsplit(" | ", 1)[0]
+    spare = {}
+    for k in sorted(reviewed, key=lambda x: (descriptor(x), int(x.rsplit(" | ", 1)[1]) if x.rsplit(" | ", 1)[1].isdigit() else 0)):
+        if k not in used:
+            spare.setdefault(descriptor(k), []).append(k)
+    for fid, site, key, at in pending:
+        lst = spare.get(descriptor(key)) or []
+        if lst:
+            k2 = lst.pop(0)
+            used.add(k2)
+            why = reviewed[k2]
+            rep.exempt(rep.pid + " | " + rule + " | " + key, "matched to the reviewed line `%s` of the same function and kind (sites renumbered): %s" % (k2, why))
+            rep.ob(rule, key, True, "%s `%s` reviewed (as `%s`): %s" % (site.kind, site.desc, k2.rsplit(" | ", 1)[1], why), at)
+            continue
+        kind = "API precondition of an entry point / indirectly called function" if site.status == "exported" else "not implied by any dominating guard"
+        rep.ob(rule, key, False, "possible panic: %s `%s` in %s: %s" % (site.kind, site.desc, fid, kind), at)
     stale = sorted(set(reviewed) - used)
     rep.extra.setdefault("stale_table_lines", {})[rule] = stale
     rep.extra.setdefault("reachable_bodies", {})[rule] = len(R)
